@@ -6,6 +6,8 @@
 package main
 
 import (
+	"bytes"
+	"context"
 	"fmt"
 	"go/ast"
 	"go/parser"
@@ -462,4 +464,138 @@ func genAPIs(c *core.Ctx) {
 		apiRound(c, enc, all[:9], "all-a")
 		apiRound(c, enc, all[9:], "all-b")
 	}
+}
+
+// ---- strings at the limit of the encrypted-stream length prefix (int32) ---------------
+// The theorems assume an encrypted string (terminator included) is shorter than 2^31
+// bytes.  Here the real writer is run AT that limit (oracle only: 2 GiB values cannot be
+// handed to the Coq model): 2^31-2 content bytes must go out with the prefix 2^31-1 and
+// every payload byte intact; 2^31-1 content bytes cannot be announced by an int32 prefix,
+// so the writer must refuse the value and write nothing of it - accepting it would put a
+// wrapped (negative) length on the wire that every cedar reader rejects.
+type countingStream struct {
+	enc              bool
+	frames, total    int
+	maxFrame         int
+	head             []byte // first 16 payload bytes
+	nonA             int    // payload bytes after the head that are not 'a'
+	last             byte
+	eomSeen, eomLast bool
+}
+
+func (s *countingStream) ReadFrame(ctx context.Context) ([]byte, bool, error) {
+	return nil, false, fmt.Errorf("write-only stream")
+}
+func (s *countingStream) WriteFrame(ctx context.Context, d []byte, eom bool) error {
+	s.frames++
+	if len(d) > s.maxFrame {
+		s.maxFrame = len(d)
+	}
+	rest := d
+	for len(s.head) < 16 && len(rest) > 0 {
+		s.head = append(s.head, rest[0])
+		rest = rest[1:]
+	}
+	s.nonA += len(rest) - bytes.Count(rest, []byte{'a'})
+	if len(d) > 0 {
+		s.last = d[len(d)-1]
+	}
+	s.total += len(d)
+	s.eomLast = eom
+	s.eomSeen = s.eomSeen || eom
+	return nil
+}
+func (s *countingStream) IsEncrypted() bool { return s.enc }
+
+func genHuge(c *core.Ctx) {
+	if math.MaxInt == math.MaxInt32 {
+		c.Assume("32-bit platform: strings of 2^31 bytes cannot exist; the length-prefix limit cases are skipped")
+		return
+	}
+	var buf []byte
+	func() {
+		defer func() { recover() }()
+		buf = make([]byte, math.MaxInt32)
+	}()
+	if buf == nil {
+		c.Assume("could not allocate 2 GiB: the length-prefix limit cases are skipped")
+		return
+	}
+	buf[0] = 'a'
+	for n := 1; n < len(buf); n *= 2 {
+		copy(buf[n:], buf[:n])
+	}
+	type hc struct {
+		api string
+		enc bool
+		n   int
+	}
+	cases := []hc{{"PutStringBytes", true, math.MaxInt32 - 1}, {"PutStringBytes", true, math.MaxInt32}, {"PutStringBytes", false, math.MaxInt32}}
+	if !c.Quick() {
+		cases = append(cases, hc{"PutString", true, math.MaxInt32 - 1}, hc{"PutString", true, math.MaxInt32}, hc{"CodeString", true, math.MaxInt32})
+	}
+	for _, h := range cases {
+		st := &countingStream{enc: h.enc}
+		m := message.NewMessageForStream(st)
+		_ = m.PutChar(ctx, 0x3c)
+		var err error
+		called[h.api]++
+		switch h.api {
+		case "PutStringBytes":
+			err = m.PutStringBytes(ctx, buf[:h.n])
+		case "PutString":
+			err = m.PutString(ctx, string(buf[:h.n]))
+		default:
+			s := string(buf[:h.n])
+			err = m.CodeString(ctx, &s)
+		}
+		_ = m.PutChar(ctx, 0x3e)
+		_ = m.FinishMessage(ctx)
+		desc := map[string]interface{}{"kind": "huge-string", "enc": h.enc, "api": h.api, "n": h.n}
+		c.Count(fmt.Sprintf("huge-string-%s-enc=%v-n=%d", h.api, h.enc, h.n))
+		c.Evaluated(1)
+		c.OracleCheck()
+		if msg := hugeVerdict(h.enc, h.n, err, st); msg != "" {
+			c.OracleFail("string-length-prefix-limit", msg, desc)
+		}
+	}
+}
+
+// hugeVerdict: "" if the writer treated an n-byte string of 'a's correctly (see genHuge).
+func hugeVerdict(enc bool, n int, err error, st *countingStream) string {
+	fits := !enc || n+1 <= math.MaxInt32
+	if !fits {
+		if err == nil {
+			return fmt.Sprintf("the writer accepted a %d-byte string on an encrypted stream although its length %d does not fit the int32 prefix; it announced it with the bytes %x (a cedar reader rejects this message)", n, n+1, st.head[1:9])
+		}
+		if st.total != 2 { // the two chars around it
+			return fmt.Sprintf("the refused string left %d payload bytes on the wire (want 2: the surrounding chars)", st.total)
+		}
+		return ""
+	}
+	if err != nil {
+		return fmt.Sprintf("the writer refused a %d-byte string that the format can carry: %v", n, err)
+	}
+	want := 1 + n + 1 + 1
+	wantHead := []byte{0x3c}
+	if enc {
+		want += 8
+		wantHead = append(wantHead, i64(int64(n+1))...)
+	}
+	for len(wantHead) < 16 {
+		wantHead = append(wantHead, 'a')
+	}
+	switch {
+	case st.total != want:
+		return fmt.Sprintf("%d payload bytes emitted, the format prescribes %d", st.total, want)
+	case !bytes.Equal(st.head, wantHead):
+		return fmt.Sprintf("message starts with %x, the format prescribes %x", st.head, wantHead)
+	case st.nonA != 2 || st.last != 0x3e:
+		return fmt.Sprintf("payload corrupted: %d bytes other than the content byte after the head (want 2: terminator and closing char), last byte %#x", st.nonA, st.last)
+	case st.maxFrame > message.MaxFrameSize:
+		return fmt.Sprintf("a frame of %d bytes was handed to the stream", st.maxFrame)
+	case !st.eomLast:
+		return "the last frame does not carry EOM"
+	}
+	return ""
 }
